@@ -44,7 +44,9 @@ class get_top_die:
     havoc_shapes = CACHE_SHAPES
     returns = DIET
     ensures = ["die_at(result, self, self.cu_die_offset)", "result.stream is self.dwarfinfo.debug_info_sec.stream",
-               "len(self._diemap) >= 1"] + DIE_RI + \
+               "len(self._diemap) >= 1",
+               # a cached root entry is returned without touching the section stream
+               "not old(has_top(self)) or self.dwarfinfo.debug_info_sec.stream.pos == old(self.dwarfinfo.debug_info_sec.stream.pos)"] + DIE_RI + \
               ["('%s' in result.attributes) == has_base(self, '%s')" % (b, b) for b in BASES] + \
               ["not has_base(self, '%s') or result.attributes['%s'].value == base_of(self, '%s')" % (b, b, b) for b in BASES]
     may_raise = PARSE_EXC
@@ -56,6 +58,7 @@ class has_top_die:
     resolution of the root entry's own index forms)"""
     params = dict(self=CUFull)
     rep_reader = True
+    pure = True
     returns = Bool
     ensures = ["result == has_top(self)"]
 
@@ -159,7 +162,8 @@ class translate_attr_value:
     format, bases from the unit's root entry -- everything else unchanged.  The index forms of the root
     entry itself are resolved later (after the entry has been read to its end), which is the only place
     where the state of the entry cache is consulted."""
-    params = dict(self=Obj('DIE', cu=CUFull, dwarfinfo=Alias('cu.dwarfinfo'), offset=Nat), form=OneOf(*ALL_FORMS), raw_value=Nat)
+    params = dict(self=Obj('DIE', cu=CUFull, dwarfinfo=Alias('cu.dwarfinfo'), offset=Nat, stream=InfoStream), form=OneOf(*ALL_FORMS),
+                  raw_value=Nat)
     requires = ["self.offset >= self.cu.cu_die_offset"]
     ghost = {"$t": "has_top(self.cu) or self.offset != self.cu.cu_die_offset", "$D": "self.cu.dwarfinfo"}
     modifies = ["*rep"]
@@ -180,5 +184,109 @@ class translate_attr_value:
         # everything else, and the root entry's index forms before the root is complete, is the raw value
         "(form == 'DW_FORM_strp' or form == 'DW_FORM_line_strp' or (%s and $D.supplementary_dwarfinfo is not None) or form == 'DW_FORM_flag'"
         " or form == 'DW_FORM_flag_present' or ((%s or %s or form == 'DW_FORM_loclistx' or form == 'DW_FORM_rnglistx') and $t))"
-        " or result == raw_value" % (SUPS, ADDRX, STRX)]
+        " or result == raw_value" % (SUPS, ADDRX, STRX),
+        # the entry's own stream (.debug_info) is left where it was, provided the unit's root entry need not be parsed
+        # on the way: it is cached, or this entry is the root entry itself (whose index forms are resolved later)
+        "not (old(has_top(self.cu)) or self.offset == self.cu.cu_die_offset) or self.stream.pos == old(self.stream.pos)",
+        "not old(has_top(self.cu)) or has_top(self.cu)"]          # the entry cache only grows
     may_raise = ["ELFParseError", "DWARFError", "OverflowError", "KeyError"]
+
+
+# ---------------------------------------------------------------- the parse of one entry
+from specs.dieparse import form_val, form_end, uleb_val, uleb_next, ind_q, form_name
+from specs.dwarf import StructsT as DwStructs
+
+DieP = Obj('DIE', cu=Obj('CompileUnit', structs=DwStructs), stream=Stream, offset=Nat)
+IND = "'DW_FORM_indirect'"
+
+
+@contract(DIEF, "DIE._resolve_indirect", props=["C04"])
+class resolve_indirect:
+    """DW_FORM_indirect (7.5.3) with arbitrary nesting: the form codes are adjacent ULEB128 numbers q0, q1, ...; the
+    first code that is not DW_FORM_indirect names the real form, whose value follows; the length is the number of
+    codes read; an unknown code is rejected"""
+    params = dict(self=DieP)
+    ghost = {"$B": "self.stream.B", "$p": "self.stream.pos", "$S": "self.cu.structs"}
+    returns = TupleT(Str, Int, Nat)
+    loops = {0: dict(invariant=["length == $k + 1", "self.stream.pos == ind_q($B, $p, $k + 1)",
+                                "real_form_code == uleb_val($B, ind_q($B, $p, $k))",
+                                "forall(lambda j: form_name(uleb_val($B, ind_q($B, $p, j))) == %s, 0, $k)" % IND],
+                     variant="len($B) + 1 - self.stream.pos")}
+    ensures = ["result[2] >= 1",
+               "result[0] == form_name(uleb_val($B, ind_q($B, $p, result[2] - 1)))", "result[0] != %s" % IND,
+               "forall(lambda j: form_name(uleb_val($B, ind_q($B, $p, j))) == %s, 0, result[2] - 1)" % IND,
+               "result[1] == form_val($B, ind_q($B, $p, result[2]), result[0], $S)",
+               "self.stream.pos == form_end($B, ind_q($B, $p, result[2]), result[0], $S)"]
+    may_raise = ["DWARFError", "ELFParseError", "KeyError"]
+
+
+SpecT = Rec('AttrSpec', name=CodeT(16), form=CodeT(16), value=Int)
+DeclT = Obj('AbbrevDecl', decl=Rec(tag=CodeT(16), attr_spec=ListOf(SpecT)), _has_children=Bool, code=Nat)
+
+
+@contract("elftools/dwarf/compileunit.py", "CompileUnit.get_abbrev_table", props=["C04"])
+class get_abbrev_table:
+    """(assumed) the abbreviation table of the unit (parsed once from .debug_abbrev at debug_abbrev_offset)"""
+    mode = 'assume'
+    returns = Obj('AbbrevTable')
+    may_raise = ["ELFParseError", "OverflowError", "DWARFError"]
+
+
+@contract("elftools/dwarf/abbrevtable.py", "AbbrevTable.get_abbrev", props=["C04"])
+class get_abbrev:
+    """(assumed) the declaration for a code: tag, child flag, attribute specifications in order (layout K2)"""
+    mode = 'assume'
+    returns = DeclT
+    ensures = ["result.code == code"]
+    may_raise = ["KeyError"]
+
+
+for _q in ("AbbrevDecl.__getitem__", "AbbrevDecl.has_children"):
+    @contract("elftools/dwarf/abbrevtable.py", _q, props=["C04"])
+    class _inl3:
+        inline = True
+
+
+DieFull = Obj('DIE', cu=CUFull, stream=InfoStream, offset=Nat, attributes=EmptyDict(), tag=NoneT,
+              has_children=NoneT, abbrev_code=NoneT, size=Const(0), dwarfinfo=Alias('cu.dwarfinfo'))
+A = "self.attributes[$sp.name]"
+
+
+@contract(DIEF, "DIE._parse_DIE", props=["C04"])
+class parse_die:
+    """one entry (7.5.2): the abbreviation code is the ULEB128 number at the entry's offset; code 0 is a null entry of
+    that size; otherwise tag and child flag come from the declaration of the code and the attributes are read in the
+    order of the declaration, each starting where the previous one ended: name from the specification, offset of its
+    first byte, final form / raw value / indirection length by form (implicit_const: the declaration's constant, no
+    bytes; indirect: the chain of 7.5.3; otherwise the form's operand parser), the resolved value by
+    _translate_attr_value (its own contract); the size is the distance from the offset to the end of the last attribute"""
+    params = dict(self=DieFull)
+    # the callers (get_top_DIE, _get_cached_DIE) construct entries only in these situations; otherwise resolving an
+    # index form would parse the root entry from the same stream in the middle of this entry
+    requires = ["self.offset >= self.cu.cu_die_offset", "has_top(self.cu) or self.offset == self.cu.cu_die_offset",
+                "self.stream is self.cu.dwarfinfo.debug_info_sec.stream"]
+    ghost = {"$B": "self.stream.B", "$S": "self.cu.structs", "$o": "self.offset"}
+    loops = {0: dict(
+        ghost_init={"$pos": "self.stream.pos"}, ghost_update={"$pos": "self.stream.pos"},
+        ghost_step={"$a": "self.stream.pos", "$sp": "$seq0[$k]"},
+        invariant=["self.stream.pos == $pos", "self.abbrev_code == uleb_val($B, $o)", "self.abbrev_code != 0",
+                   "has_top(self.cu) or self.offset == self.cu.cu_die_offset"],
+        step=[A + ".name == $sp.name", A + ".offset == $a",
+              # implicit_const: the constant of the declaration, no bytes consumed
+              "$sp.form != 'DW_FORM_implicit_const' or (%s.form == 'DW_FORM_implicit_const' and %s.value == $sp.value and"
+              " %s.raw_value == $sp.value and %s.indirection_length == 0 and self.stream.pos == $a)" % (A, A, A, A),
+              # indirect: chain of form codes from the attribute's offset
+              "$sp.form != %s or (%s.indirection_length >= 1 and"
+              " %s.form == form_name(uleb_val($B, ind_q($B, $a, %s.indirection_length - 1))) and %s.form != %s and"
+              " %s.raw_value == form_val($B, ind_q($B, $a, %s.indirection_length), %s.form, $S) and"
+              " self.stream.pos == form_end($B, ind_q($B, $a, %s.indirection_length), %s.form, $S))" % (IND, A, A, A, A, IND, A, A, A, A, A),
+              # every other form: the form's operand parser at the attribute's offset
+              "$sp.form == 'DW_FORM_implicit_const' or $sp.form == %s or (%s.form == $sp.form and %s.indirection_length == 0 and"
+              " %s.raw_value == form_val($B, $a, $sp.form, $S) and self.stream.pos == form_end($B, $a, $sp.form, $S))" % (IND, A, A, A)],
+        shapes={"self.attributes": CodeDictOf(Rec('AttributeValue', name=CodeT(16), form=CodeT(16), value=Any, raw_value=Int, offset=Nat,
+                                                  indirection_length=Nat))})}
+    ensures = ["self.abbrev_code == uleb_val($B, $o)",
+               "self.abbrev_code != 0 or (self.size == uleb_next($B, $o) - $o and self.tag is None and self.has_children is None)",
+               "self.abbrev_code == 0 or self.size == self.stream.pos - $o"]
+    modifies = ["self.attributes", "self.tag", "self.has_children", "self.abbrev_code", "self.size", "*rep"]
+    may_raise = ["ELFParseError", "DWARFError", "KeyError", "OverflowError"]
